@@ -1,4 +1,4 @@
-import PilotaModel.Lemmas.PbIsSpec
+import PilotaModel.Lemmas.PbReads2
 import PilotaModel.Props.PbTables
 /-
   C06 — pilota's protobuf wire format conforms to the protobuf encoding spec.
@@ -42,6 +42,23 @@ theorem pilota_is_spec (ps : Spec.PSchema) (flag : Bool) (hs : WFSchema (Spec.lo
     Spec.Enc ps i m (encode (Spec.lowerSchema ps) flag i m) :=
   encode_is_spec ps flag hs i m hm.1
 
+/-- **second direction**: ANY conforming encoding of a value — fields in any order and interleaved,
+repeated numeric fields packed, unpacked or split into several runs, implicit-presence fields and
+map keys / values present or omitted when zero, map entries with key and value in either order —
+is decoded by pilota's emitted decoder to that value.  (`HasType … true`: the value is one the
+generated struct holds, map keys distinct, nesting within the recursion limit of 100.) -/
+theorem pilota_reads_any_spec (ps : Spec.PSchema) (hs : WFSchema (Spec.lowerSchema ps) = true) (i : Nat) (m : Slots) (bs : Bytes)
+    (henc : Spec.Enc ps i m bs) (hm : HasType (Spec.lowerSchema ps) true i m) :
+    decode (Spec.lowerSchema ps) i bs = .ok m :=
+  decode_reads_spec ps hs i m bs henc hm
+
+/-- the two directions together: what one pilota peer writes, any pilota peer reads (a corollary that
+does not mention the reference — kept to show the reference relation is inhabited by real encodings). -/
+theorem pilota_reads_pilota (ps : Spec.PSchema) (hs : WFSchema (Spec.lowerSchema ps) = true) (flag : Bool) (i : Nat) (m : Slots)
+    (hm : HasType (Spec.lowerSchema ps) flag i m) (hm' : HasType (Spec.lowerSchema ps) true i m) :
+    decode (Spec.lowerSchema ps) i (encode (Spec.lowerSchema ps) flag i m) = .ok m :=
+  pilota_reads_any_spec ps hs i m _ (pilota_is_spec ps flag hs i m hm) hm'
+
 /-! non-vacuity: a declared schema with sint32, string, a packed-able repeated enum, a map and a oneof. -/
 def demoP : Spec.PSchema :=
   [[.single 1 (.scalar .sint32) false, .single 2 (.scalar .string) true, .rep 3 .enum,
@@ -53,6 +70,7 @@ def demoV : Slots :=
         (.cons (.one 5 (.s (.f64 0x7ff8000000000001))) .nil))))
 example : WFSchema (Spec.lowerSchema demoP) = true := by decide
 example : HasType (Spec.lowerSchema demoP) false 0 demoV := by decide
+example : HasType (Spec.lowerSchema demoP) true 0 demoV := by decide
 example : Codec.sint32.ok (.int (-3)) = true := by decide
 
 end Pilota.Props.C06
